@@ -400,15 +400,18 @@ impl ArrayLike for ReverseArray {
 	}
 
 	fn get(&self, index: usize) -> Result<Option<Val>> {
-		self.0.get(self.0.len() - index - 1)
+		let Some(index) = self.0.len().checked_sub(index + 1) else {
+			return Ok(None);
+		};
+		self.0.get(index)
 	}
 
 	fn get_lazy(&self, index: usize) -> Option<Thunk<Val>> {
-		self.0.get_lazy(self.0.len() - index - 1)
+		self.0.get_lazy(self.0.len().checked_sub(index + 1)?)
 	}
 
 	fn get_cheap(&self, index: usize) -> Option<Val> {
-		self.0.get_cheap(self.0.len() - index - 1)
+		self.0.get_cheap(self.0.len().checked_sub(index + 1)?)
 	}
 	fn is_cheap(&self) -> bool {
 		self.0.is_cheap()
